@@ -548,3 +548,22 @@ func bindDeps(t *core.Table, cond core.TT, m matchers) (b *core.Binding, unbound
 	}
 	return
 }
+
+// missingBound lists the specification variables that no condition of the code was bound to:
+// a decision that stopped depending on a reviewed test must not pass because the
+// specification is then evaluated with that variable constantly false.
+func missingBound(b *core.Binding, m matchers) []string {
+	have := map[string]bool{}
+	if b != nil {
+		for _, n := range b.Names {
+			have[n] = true
+		}
+	}
+	var out []string
+	for _, n := range sortedKeys(m) {
+		if !have[n] {
+			out = append(out, n)
+		}
+	}
+	return out
+}
